@@ -1448,26 +1448,28 @@ def _tolerate_domain_guards(act: "Signature", ref: "Signature") -> list[str]:
     raise and the guard's negation in the conditions of everything that follows are removed before the comparison."""
     ref_conds = {c for f in ref.facts for c in (f[-2] if f[0] == "set" else f[-1] if f[0] in ("raise",) else f[2] if len(f) > 2 and isinstance(f[2], tuple) else ())
                  if isinstance(c, str)}
+    def opposite(c: str) -> str:
+        return ("ifnot " + c[3:]) if c.startswith("if ") else ("if " + c[6:])
+
     extra: set[str] = set()
     for f in act.facts:
         if f[0] == "raise" and f[1]:
-            last = f[1][-1]
-            if last in ref_conds:
-                continue
-            if _DOMAIN_GUARD.match(last) or _DOMAIN_GUARD_NEG.match(last):
-                extra.add(last)
+            # contexts are sorted conjunctions: any entry of a raising context may be the guard that triggers it
+            for g in f[1]:
+                if g in ref_conds or opposite(g) in ref_conds:
+                    continue
+                if _DOMAIN_GUARD.match(g) or _DOMAIN_GUARD_NEG.match(g):
+                    extra.add(g)
     if not extra:
         return []
-    drop = set(extra)
-    for c in extra:
-        drop.add(("ifnot " + c[3:]) if c.startswith("if ") else ("if " + c[6:]))
+    drop = set(extra) | {opposite(c) for c in extra}
 
     def strip(ctx: tuple) -> tuple:
         return tuple(x for x in ctx if x not in drop)
 
     new_facts = set()
     for f in act.facts:
-        if f[0] == "raise" and f[1] and f[1][-1] in extra:
+        if f[0] == "raise" and f[1] and any(g in extra for g in f[1]):
             continue
         if f[0] == "set":
             new_facts.add((*f[:4], strip(f[4]), f[5]))
